@@ -309,6 +309,14 @@ class CallMixin:
                     ev.attrs[an] = self.spec_eval(anode, env, old_state=pre, old_locals=pre_locals)
                 raise PyExc(ev)
         # normal outcome
+        if fs.d.get('modifies_self_only'):
+            # make sure the arrays about to be havocked exist in the pre-state (they are created on first use)
+            for m in (case or {}).get('modifies', fs.modifies):
+                if not m.startswith('ghost.') and m != '*':
+                    sch, fld = m.split('.', 1)
+                    f = self.spec.field(sch, fld)
+                    if f is not None:
+                        self.heap_arr((f[0], fld), f[1])
         heap_before = dict(self.st.heap)
         self.apply_modifies((case or {}).get('modifies', fs.modifies))
         if fs.d.get('modifies_self_only') and 'self' in bound:
